@@ -377,6 +377,28 @@ def _diff_pairs(ctx):
                     continue
                 au, bu = (aa - aa.utcoffset()).replace(tzinfo=None), (bb - bb.utcoffset()).replace(tzinfo=None)
                 out.append((f"precise_diff({aa.isoformat(' ')}, {bb.isoformat(' ')})", aa, bb, au, bu))
+    # the same fixed offset on both sides, the same day of the month in different months, a time of day that the shift to UTC moves over midnight:
+    # these are decomposed on their own clock (only a pair on one calendar day is moved to UTC)
+    class _Named(_dt.tzinfo):
+        """a fixed-offset tzinfo that carries a name, like pendulum's FixedTimezone (the helpers recognise 'the same zone' by name)"""
+
+        def __init__(self, seconds, name):
+            self._off, self.name = _dt.timedelta(seconds=seconds), name
+
+        def utcoffset(self, d):
+            return self._off
+
+        def dst(self, d):
+            return _dt.timedelta(0)
+
+        def tzname(self, d):
+            return self.name
+    n5, nm3 = _Named(19800, "+05:30"), _Named(-10800, "-03:00")
+    for off_, pairs_ in ((n5, [(D(2021, 5, 1, 2, 0), D(2021, 6, 1, 2, 0)), (D(2021, 1, 31, 1, 0), D(2021, 3, 31, 1, 0)), (D(2020, 2, 29, 3, 15), D(2021, 2, 28, 3, 15)), (D(2021, 3, 1, 0, 30), D(2021, 3, 1, 23, 45))]),
+                         (nm3, [(D(2021, 5, 1, 22, 0), D(2021, 6, 1, 22, 0)), (D(2021, 8, 31, 23, 30), D(2021, 9, 30, 23, 30)), (D(2021, 12, 31, 21, 0), D(2022, 1, 31, 21, 0))])):
+        for a, b in pairs_:
+            aa, bb = a.replace(tzinfo=off_), b.replace(tzinfo=off_)
+            out.append((f"precise_diff({aa.isoformat(' ')}, {bb.isoformat(' ')}) [same fixed offset]", aa, bb, a, b))
     # named zones (the standard library's zoneinfo): the same zone at one offset is decomposed on its wall clock, differently named zones
     # as the same two instants in UTC
     try:
